@@ -80,9 +80,40 @@ class Exec(ExprMixin, StmtMixin, CallMixin):
             return d
         if self.choose_n(2, tag) == 0:
             st.assume(cond)
+            self.prune_if_dead(st)
             return True
         st.assume(z3.Not(cond))
+        self.prune_if_dead(st)
         return False
+
+    def prune_if_dead(self, st):
+        """stop exploring a branch whose quantifier-free path condition is already contradictory (sound: hypotheses are only dropped)"""
+        s = z3.Solver()
+        s.set('timeout', 400)
+        for f in st.pc:
+            if not self.has_quantifier(f):
+                s.add(f)
+        if s.check() == z3.unsat:
+            self.exits['dead-branch'] += 1
+            raise PathEnd()
+
+    def has_quantifier(self, f):
+        cache = self.__dict__.setdefault('_hq', {})
+        k = f.get_id()
+        if k in cache:
+            return cache[k]
+        todo, seen, found = [f], set(), False
+        while todo:
+            x = todo.pop()
+            if x.get_id() in seen:
+                continue
+            seen.add(x.get_id())
+            if z3.is_quantifier(x):
+                found = True
+                break
+            todo.extend(x.children())
+        cache[k] = found
+        return found
 
     # ------------------------------------------------------------------ heap
     def heap_arrays(self, st, key):
@@ -181,8 +212,20 @@ class Exec(ExprMixin, StmtMixin, CallMixin):
             self.spec_mode -= 1
 
     def spec_bool(self, text, st, extra=None, result=None):
-        v = self.spec_eval(text, st, extra, result)
-        return self.truth(st, v)
+        node = ast.parse(text.strip(), mode='eval').body if isinstance(text, str) else text
+        self.spec_mode += 1
+        saved = st.env
+        try:
+            env = dict(saved)
+            if extra:
+                env.update(extra)
+            if result is not None:
+                env['result'] = result
+            st.env = env
+            return self.ev_truth(node, st)
+        finally:
+            st.env = saved
+            self.spec_mode -= 1
 
     # ------------------------------------------------------------------ verification of one function
     def bind_params(self, st):
@@ -245,6 +288,8 @@ class Exec(ExprMixin, StmtMixin, CallMixin):
                 raise OutsideSubset('more than %d paths' % MAX_PATHS)
             st = St()
             self.bind_params(st)
+            for name, text in ct.lets.items():
+                st.env[name] = self.spec_eval(text, st)
             for lbl, text in ct.requires.items():
                 st.assume(self.spec_bool(text, st))
             for lbl, (text, _) in self.reg.axioms.items():
@@ -298,6 +343,8 @@ class Exec(ExprMixin, StmtMixin, CallMixin):
 
     def check_normal_exit(self, st, result):
         ct = self.ct
+        if isinstance(ct.returns, SeqT) and not isinstance(getattr(result, 'sort', None), SeqT):
+            result = self.as_seq(result, st)             # a returned container is specified by the sequence it iterates as
         if ct.returns is not None and not isinstance(result, PyVal):
             result = coerce(result, ct.returns)
         post = st.fork()
